@@ -130,6 +130,40 @@ type StructLit struct {
 	Ty     string
 }
 
+// ECall: a call with an effect on the state that returns values (`err = c.Write(b, false)`,
+// `nb, err := c.ReadUntilPrompt(ctx)`), accepted as the single right-hand side of an assignment
+// (or as an expression statement). Key = the printed callee (`recv.Write`). ArgTys gives the
+// translator type of each argument ("skip" = not rendered: contexts, flags). Pre is emitted before
+// the assignment of the results, with %0… = arguments, %r0… = fresh names the template must bind to
+// the results (types Ret), %PANIC / %RETURN{…} as in Step; Post closes what Pre opened, after the
+// rest of the function. Assigns = the state variables the template assigns.
+type ECall struct {
+	ArgTys  []string
+	Ret     []string
+	Pre     []string
+	Post    string
+	Assigns []string
+}
+
+// GoIdiom switches on the recognition of the "synchronous goroutine" idiom:
+//
+//	cr := make(chan *result)            one unbuffered result channel made in the function
+//	go func() { …; cr <- &result{b: e1, err: e2}; return; … }()   one goroutine literal, no arguments
+//	r := <-cr                            the parent receives once, right after the go statement
+//
+// with the checks: the channel is used for nothing else (a leading `defer close(cr)` in the
+// goroutine is allowed); every send is the last statement of the goroutine body or is directly
+// followed by `return`; there is no other `return` and no send inside a loop; the body ends in a
+// send. Then every path of the goroutine sends exactly once and the parent, which blocks on the
+// receive, observes a synchronous call: the body is rendered sequentially, each send binding
+// `<r>_b` / `<r>_err` (what `r.b` / `r.err` read) and continuing with the rest of the parent.
+// That the two goroutines share no other state while the parent is blocked, and that nothing else
+// receives from the channel, is the trusted part. Anything else renders `unsupported_goroutine_idiom`.
+type GoIdiom struct {
+	ResultType string            // e.g. "result"
+	Fields     map[string]string // field → translator type, e.g. b: bytes, err: error
+}
+
 // FailMode: the function's Lean type is `Except Ty _`; Panic is the value of a failed bounds test.
 type FailMode struct{ Ty, Panic string }
 
@@ -162,6 +196,11 @@ type FnSpec struct {
 	Effects map[string]Effect // call key → effect
 	Steps   map[string]Step   // statement key → templated step
 	Structs map[string]StructLit
+	ECalls  map[string]ECall
+	Go      *GoIdiom
+	// IgnoreCalls: expression-statement calls whose printed callee starts with one of these prefixes
+	// (loggers) are declared not modelled and rendered as a comment
+	IgnoreCalls []string
 	// IgnoreAssign: assignment targets (keys) whose statements are declared not modelled (time stamps);
 	// they are rendered as a Lean comment
 	IgnoreAssign []string
@@ -310,6 +349,10 @@ type bodyTr struct {
 	fnResTy  string // Lean result type
 	consts   map[string]map[string]Val
 	synth    map[*ast.BadStmt]*ifNode // else-parts of a switch rewritten as an if-chain
+	parentBody []ast.Stmt
+	goChan   string                   // GoIdiom: name of the result channel, once made
+	goBody   []ast.Stmt               // GoIdiom: the goroutine body, once the go statement was seen
+	ecallN   int
 	inl      map[string]Val           // inlined invariant locals (FnSpec.InlineInvariant)
 	mutated  map[string]bool          // names assigned anywhere in the body other than by their one `:=`
 	hasFuel  bool                     // the function has a `for` loop with a condition: extra `fuel` parameter
@@ -352,6 +395,10 @@ func (t *bodyTr) exprKey(e ast.Expr) string {
 		return t.exprKey(x.Fun) + "(" + strings.Join(args, ", ") + ")"
 	case *ast.StarExpr:
 		return "*" + t.exprKey(x.X)
+	case *ast.ChanType:
+		if x.Dir == ast.SEND|ast.RECV {
+			return "chan " + t.exprKey(x.Value)
+		}
 	case *ast.IndexExpr:
 		return t.exprKey(x.X) + "[" + t.exprKey(x.Index) + "]"
 	case *ast.ArrayType:
@@ -980,6 +1027,9 @@ func (t *bodyTr) call(x *ast.CallExpr, sc bscope, want string) Val {
 				if len(x.Args) >= 1 {
 					base := t.expr(x.Args[0], sc, want)
 					el := map[string]string{"bytes": "byte", "list": "bytes"}[base.Ty]
+					if strings.HasPrefix(base.Ty, "olist:") && x.Ellipsis.IsValid() {
+						el = "opaque"
+					}
 					if el == "" {
 						return Val{t.unsupported("append_base"), want}
 					}
@@ -1117,6 +1167,8 @@ type bctx struct {
 	fall   func(sc bscope, ind string) string
 	// Lean lines of the deferred calls registered so far (run before every return)
 	deferred []string
+	// inside the goroutine body of a GoIdiom: what a send on the result channel continues with
+	onSend func(fields map[string]string, sc bscope, ind string) string
 	brk    func() string // nil outside loops
 	cont   func() string
 }
@@ -1176,6 +1228,186 @@ func (t *bodyTr) deferredLines(ctx bctx, ind string, vals []string) string {
 		b.WriteString(ind + l + "\n")
 	}
 	return b.String()
+}
+
+// fillTemplate substitutes %PANIC and %RETURN{e1; e2} in one template line
+func (t *bodyTr) fillTemplate(l string, ctx bctx) string {
+	l = strings.ReplaceAll(l, "%PANIC", ctx.retRaw(t.panicVal()))
+	for {
+		a := strings.Index(l, "%RETURN{")
+		if a < 0 {
+			return l
+		}
+		e := strings.Index(l[a:], "}")
+		if e < 0 {
+			return l[:a] + t.unsupported("template") + l[a+8:]
+		}
+		parts := strings.Split(l[a+8:a+e], ";")
+		for k := range parts {
+			parts[k] = strings.TrimSpace(parts[k])
+		}
+		l = l[:a] + ctx.retRaw(t.pack(parts)) + l[a+e+1:]
+	}
+}
+
+// ecall renders the Pre lines of an effectful call; returns them, the result names and Post
+func (t *bodyTr) ecall(ec ECall, c *ast.CallExpr, sc bscope, ctx bctx, ind string) (string, []string, bool) {
+	if len(c.Args) != len(ec.ArgTys) {
+		return "", nil, false
+	}
+	args := make([]string, len(c.Args))
+	for i, a := range c.Args {
+		if ec.ArgTys[i] == "skip" {
+			continue
+		}
+		v := t.expr(a, sc, ec.ArgTys[i])
+		if v.Ty != ec.ArgTys[i] {
+			v.Lean = t.unsupported("ecall_argument")
+		}
+		args[i] = v.Lean
+	}
+	t.ecallN++
+	res := make([]string, len(ec.Ret))
+	for i := range res {
+		res[i] = fmt.Sprintf("call%d_r%d", t.ecallN, i)
+	}
+	out := t.flush(ctx, ind)
+	for _, l := range ec.Pre {
+		for i := len(args) - 1; i >= 0; i-- {
+			l = strings.ReplaceAll(l, "%"+strconv.Itoa(i), args[i])
+		}
+		for i := len(res) - 1; i >= 0; i-- {
+			l = strings.ReplaceAll(l, "%r"+strconv.Itoa(i), res[i])
+		}
+		out += ind + t.fillTemplate(l, ctx) + "\n"
+	}
+	return out, res, true
+}
+
+// resultLit reads `&result{b: e1, err: e2}`: every field of the GoIdiom, by name
+func (t *bodyTr) resultLit(e ast.Expr, g *GoIdiom, sc bscope) (map[string]string, bool) {
+	u, ok := e.(*ast.UnaryExpr)
+	if !ok || u.Op != token.AND {
+		return nil, false
+	}
+	cl, ok := u.X.(*ast.CompositeLit)
+	if !ok || t.exprKey(cl.Type) != g.ResultType || len(cl.Elts) != len(g.Fields) {
+		return nil, false
+	}
+	out := map[string]string{}
+	for _, el := range cl.Elts {
+		kv, ok := el.(*ast.KeyValueExpr)
+		if !ok {
+			return nil, false
+		}
+		name := t.exprKey(kv.Key)
+		ty, ok := g.Fields[name]
+		if _, dup := out[name]; !ok || dup {
+			return nil, false
+		}
+		v := t.expr(kv.Value, sc, ty)
+		if v.Ty != ty {
+			v.Lean = t.unsupported("result_field_type")
+		}
+		out[name] = v.Lean
+	}
+	return out, true
+}
+
+// goIdiomOK checks the shape of the goroutine body (see GoIdiom) and returns it without a leading
+// `defer close(ch)`
+func (t *bodyTr) goIdiomOK(g *ast.GoStmt, ch string) ([]ast.Stmt, bool) {
+	fl, ok := g.Call.Fun.(*ast.FuncLit)
+	if !ok || len(g.Call.Args) != 0 || fl.Type.Params.NumFields() != 0 || (fl.Type.Results != nil && fl.Type.Results.NumFields() != 0) {
+		return nil, false
+	}
+	body := fl.Body.List
+	if len(body) > 0 {
+		if d, ok := body[0].(*ast.DeferStmt); ok && t.exprKey(d.Call) == "close("+ch+")" {
+			body = body[1:]
+		}
+	}
+	isSend := func(st ast.Stmt) bool {
+		s, ok := st.(*ast.SendStmt)
+		return ok && t.exprKey(s.Chan) == ch
+	}
+	good := true
+	// block: a statement list; top = the goroutine body itself. Returns whether it ends in a send.
+	var block func(stmts []ast.Stmt, top bool) bool
+	var stmt func(st ast.Stmt)
+	usesChan := func(n ast.Node) bool {
+		u := false
+		ast.Inspect(n, func(m ast.Node) bool {
+			if id, ok := m.(*ast.Ident); ok && id.Name == ch {
+				u = true
+			}
+			return !u
+		})
+		return u
+	}
+	stmt = func(st ast.Stmt) {
+		switch x := st.(type) {
+		case *ast.IfStmt:
+			if x.Init != nil && usesChan(x.Init) || usesChan(x.Cond) {
+				good = false
+			}
+			block(x.Body.List, false)
+			switch e := x.Else.(type) {
+			case nil:
+			case *ast.BlockStmt:
+				block(e.List, false)
+			case *ast.IfStmt:
+				stmt(e)
+			default:
+				good = false
+			}
+		case *ast.BlockStmt:
+			block(x.List, false)
+		case *ast.ReturnStmt:
+			good = false // a return that does not directly follow a send
+		default:
+			// loops, switches, selects, nested closures: may not touch the channel nor return
+			bad := usesChan(st)
+			ast.Inspect(st, func(m ast.Node) bool {
+				switch m.(type) {
+				case *ast.ReturnStmt, *ast.GoStmt:
+					bad = true
+				}
+				return !bad
+			})
+			if bad {
+				good = false
+			}
+		}
+	}
+	block = func(stmts []ast.Stmt, top bool) bool {
+		ends := false
+		for i := 0; i < len(stmts); i++ {
+			st := stmts[i]
+			if isSend(st) {
+				last := i == len(stmts)-1
+				if last && top {
+					ends = true
+					continue
+				}
+				if i+1 < len(stmts) {
+					if r, ok := stmts[i+1].(*ast.ReturnStmt); ok && len(r.Results) == 0 && i+2 == len(stmts) {
+						ends = true
+						i++
+						continue
+					}
+				}
+				good = false
+				continue
+			}
+			stmt(st)
+		}
+		return ends
+	}
+	if !block(body, true) {
+		good = false
+	}
+	return body, good
 }
 
 // stmtKey: the key a Step is looked up under, with the statement's argument / bound identifier
@@ -1260,11 +1492,19 @@ func (t *bodyTr) stmtKeyN(st ast.Stmt) (string, ast.Expr, []*ast.Ident) {
 
 // hasStep: does the node contain a statement or call that a Step covers?
 func (t *bodyTr) hasStep(n ast.Node) bool {
-	if len(t.spec.Steps) == 0 {
+	if len(t.spec.Steps) == 0 && len(t.spec.ECalls) == 0 && t.spec.Go == nil {
 		return false
 	}
 	found := false
 	ast.Inspect(n, func(m ast.Node) bool {
+		switch x := m.(type) {
+		case *ast.CallExpr:
+			if _, ok := t.spec.ECalls[t.exprKey(x.Fun)]; ok {
+				found = true
+			}
+		case *ast.SendStmt, *ast.GoStmt:
+			found = true
+		}
 		switch x := m.(type) {
 		case ast.Stmt:
 			if k, _, _ := t.stmtKeyN(x); k != "" {
@@ -1362,6 +1602,11 @@ func (t *bodyTr) assigned(nodes []ast.Node, sc bscope) []string {
 				if ef, ok := t.spec.Effects[t.exprKey(x.Fun)]; ok {
 					add(ef.State)
 				}
+				if ec, ok := t.spec.ECalls[t.exprKey(x.Fun)]; ok {
+					for _, a := range ec.Assigns {
+						add(a)
+					}
+				}
 				if id, ok := x.Fun.(*ast.Ident); ok && id.Name == "copy" && len(x.Args) == 2 {
 					target(x.Args[0])
 				}
@@ -1414,6 +1659,112 @@ func (t *bodyTr) seq(stmts []ast.Stmt, sc bscope, ctx bctx, ind string) string {
 	bad := func(kind string) string {
 		return ind + "let _ := " + t.unsupported(kind) + "\n" + rest(sc, ind)
 	}
+	// declared-not-modelled calls (loggers)
+	if es, ok := st.(*ast.ExprStmt); ok {
+		if c, ok := es.X.(*ast.CallExpr); ok {
+			k := t.exprKey(c.Fun)
+			for _, pre := range t.spec.IgnoreCalls {
+				if strings.HasPrefix(k, pre) {
+					return fmt.Sprintf("%s-- %s(…) (declared not modelled)\n", ind, k) + rest(sc, ind)
+				}
+			}
+			if ec, ok := t.spec.ECalls[k]; ok {
+				pre, _, ok := t.ecall(ec, c, sc, ctx, ind)
+				if !ok {
+					return bad("ecall")
+				}
+				if ec.Post == "" {
+					return pre + rest(sc, ind)
+				}
+				return pre + strings.TrimRight(rest(sc, ind), "\n") + ec.Post + "\n"
+			}
+		}
+	}
+	// the synchronous-goroutine idiom
+	if g := t.spec.Go; g != nil {
+		switch x := st.(type) {
+		case *ast.AssignStmt:
+			// cr := make(chan *result)
+			if x.Tok == token.DEFINE && len(x.Lhs) == 1 && len(x.Rhs) == 1 {
+				if id, ok := x.Lhs[0].(*ast.Ident); ok && t.exprKey(x.Rhs[0]) == "make(chan *"+g.ResultType+")" {
+					if t.goChan != "" || sc.depth != 1 {
+						return bad("goroutine_idiom")
+					}
+					t.goChan = id.Name
+					return fmt.Sprintf("%s-- %s := make(chan *%s): the result channel of the synchronous-goroutine idiom\n", ind, id.Name, g.ResultType) + rest(sc, ind)
+				}
+			}
+			// r := <-cr   (directly after the go statement)
+			if x.Tok == token.DEFINE && len(x.Lhs) == 1 && len(x.Rhs) == 1 && t.goChan != "" && t.exprKey(x.Rhs[0]) == "<-"+t.goChan {
+				id, ok := x.Lhs[0].(*ast.Ident)
+				if !ok || t.goBody == nil || sc.depth != 1 {
+					return bad("goroutine_idiom")
+				}
+				body := t.goBody
+				t.goBody = nil
+				gctx := ctx
+				gctx.fall = func(_ bscope, ind string) string { return ind + t.unsupported("goroutine_idiom_no_send") + "\n" }
+				gctx.onSend = func(fields map[string]string, _ bscope, ind string) string {
+					out := ""
+					names := make([]string, 0, len(fields))
+					for f := range fields {
+						names = append(names, f)
+					}
+					sort.Strings(names)
+					for _, f := range names {
+						out += fmt.Sprintf("%slet %s_%s : %s := %s\n", ind, id.Name, f, leanTy(g.Fields[f]), fields[f])
+					}
+					sc2 := sc
+					sc2, _ = t.declare(id.Name, "unit", sc2)
+					return out + rest(sc2, ind)
+				}
+				return fmt.Sprintf("%s-- go func(){…}(); %s := <-%s: the goroutine body, run synchronously\n", ind, id.Name, t.goChan) +
+					t.seq(body, sc.push(), gctx, ind)
+			}
+		case *ast.GoStmt:
+			if t.goChan == "" || t.goBody != nil || sc.depth != 1 || len(stmts) < 2 {
+				return bad("goroutine_idiom")
+			}
+			// the receive must follow directly
+			nx, ok := stmts[1].(*ast.AssignStmt)
+			if !ok || len(nx.Rhs) != 1 || t.exprKey(nx.Rhs[0]) != "<-"+t.goChan {
+				return bad("goroutine_idiom")
+			}
+			body, ok := t.goIdiomOK(x, t.goChan)
+			if !ok {
+				return bad("goroutine_idiom")
+			}
+			// the channel may not be used anywhere else in the parent
+			uses := 0
+			for _, o := range t.parentBody {
+				ast.Inspect(o, func(m ast.Node) bool {
+					if _, isGo := m.(*ast.GoStmt); isGo {
+						return false
+					}
+					if id, ok := m.(*ast.Ident); ok && id.Name == t.goChan {
+						uses++
+					}
+					return true
+				})
+			}
+			if uses != 2 { // its definition and the one receive
+				return bad("goroutine_idiom")
+			}
+			t.goBody = body
+			if t.goBody == nil {
+				t.goBody = []ast.Stmt{}
+			}
+			return rest(sc, ind)
+		case *ast.SendStmt:
+			if ctx.onSend != nil && t.exprKey(x.Chan) == t.goChan {
+				fields, ok := t.resultLit(x.Value, g, sc)
+				if !ok {
+					return bad("goroutine_idiom_result")
+				}
+				return t.flush(ctx, ind) + ctx.onSend(fields, sc, ind)
+			}
+		}
+	}
 	if key, arg, binds := t.stmtKeyN(st); key != "" {
 		if step, ok := t.spec.Steps[key]; ok {
 			if ctx.brk != nil && step.Assigns == nil && len(step.Pre) > 0 {
@@ -1449,23 +1800,7 @@ func (t *bodyTr) seq(stmts []ast.Stmt, sc bscope, ctx bctx, ind string) string {
 				if len(bindLean) > 0 {
 					l = strings.ReplaceAll(l, "%v", bindLean[0])
 				}
-				l = strings.ReplaceAll(l, "%PANIC", ctx.retRaw(t.panicVal()))
-				for {
-					a := strings.Index(l, "%RETURN{")
-					if a < 0 {
-						break
-					}
-					e := strings.Index(l[a:], "}")
-					if e < 0 {
-						l = l[:a] + t.unsupported("step_template") + l[a+8:]
-						break
-					}
-					parts := strings.Split(l[a+8:a+e], ";")
-					for k := range parts {
-						parts[k] = strings.TrimSpace(parts[k])
-					}
-					l = l[:a] + ctx.retRaw(t.pack(parts)) + l[a+e+1:]
-				}
+				l = t.fillTemplate(l, ctx)
 				lines[i] = l
 			}
 			if step.Defer {
@@ -1490,6 +1825,9 @@ func (t *bodyTr) seq(stmts []ast.Stmt, sc bscope, ctx bctx, ind string) string {
 	case *ast.EmptyStmt:
 		return rest(sc, ind)
 	case *ast.ReturnStmt:
+		if ctx.onSend != nil {
+			return ind + t.unsupported("goroutine_idiom_return") + "\n"
+		}
 		if len(x.Results) != len(t.resTys) {
 			return ind + ctx.retRaw(t.unsupported("return_arity")) + "\n"
 		}
@@ -1706,6 +2044,25 @@ func (t *bodyTr) assign(x *ast.AssignStmt, sc bscope, ctx bctx, ind string, rest
 	if len(x.Rhs) == 1 {
 		if c, ok := x.Rhs[0].(*ast.CallExpr); ok {
 			key := t.exprKey(c.Fun)
+			if ec, ok := t.spec.ECalls[key]; ok {
+				if len(ec.Ret) != len(x.Lhs) {
+					return bad("ecall_results")
+				}
+				pre, res, ok := t.ecall(ec, c, sc, ctx, ind)
+				if !ok {
+					return bad("ecall")
+				}
+				sc2, names, _ := targets(sc, ec.Ret)
+				for i := range names {
+					if names[i] != "_" {
+						pre += fmt.Sprintf("%slet %s := %s\n", ind, names[i], res[i])
+					}
+				}
+				if ec.Post == "" {
+					return pre + rest(sc2, ind)
+				}
+				return pre + strings.TrimRight(rest(sc2, ind), "\n") + ec.Post + "\n"
+			}
 			if ef, ok := t.spec.Effects[key]; ok {
 				if len(c.Args) != 1 || len(ef.Ret) != len(x.Lhs) {
 					return bad("effect_call")
@@ -2321,6 +2678,7 @@ func GenBody(spec *FnSpec) string {
 			t.reserved[w] = true
 		}
 	}
+	t.parentBody = fd.Body.List
 	// which names are assigned other than by a single definition?
 	t.inl, t.mutated = map[string]Val{}, map[string]bool{}
 	defined := map[string]int{}
